@@ -130,6 +130,33 @@ def check(ctx):
                                   "offset_2"],
                 "associate_trajectories signature changed")
     rm = Interp(prog).run(fm)
+    # a binary-search fast path next to the scan (np.searchsorted on sorted
+    # stamps, the scan kept as fall-back): the scan is judged as before under
+    # "fast path not taken"; whether the fast path picks the same counterpart
+    # (ties, runs of equal stamps, rounding of midpoints) is arithmetic this
+    # analysis does not model — undecidable, not a verdict
+    fast = [e for e in rm.calls("numpy.searchsorted")
+            if not tm.is_const(e.live, False)]
+    if fast:
+        guards = []
+        for a in tm.atoms(rm.ret.args[0] if rm.ret.op == "ite" else tm.TRUE):
+            guards.append(a)
+        ctx.undecidable("C05.3", fast[0], "matching_time_indices looks the "
+                        "nearest stamps up with np.searchsorted: which "
+                        "counterpart a binary search reports for ties, equal "
+                        "stamps and unsorted input is not modelled")
+        if rm.ret.op == "ite" and guards:
+            for val in (True, False):
+                r2 = Interp(prog, assume=lambda t, v=val: v if any(
+                    t is g for g in guards) else None).run(fm)
+                if not [e for e in r2.calls("numpy.searchsorted")
+                        if not tm.is_const(e.live, False)]:
+                    rm = r2
+                    break
+            else:
+                return
+        else:
+            return
     s1, s2 = tm.param("stamps_1"), tm.param("stamps_2")
     maxd, off = tm.param("max_diff"), tm.param("offset_2")
 
@@ -332,6 +359,33 @@ def check(ctx):
                  (ret.args[1], "traj_2", "traj_1"))):
             ok = tm.mentions_param(val, pname) and \
                 not tm.mentions_param(val, other)
+            if not ok:
+                # by the object each alternative is (conditions — a common
+                # time window ... — may look at both inputs)
+                def obj(t: T, d=0):
+                    while d < 12:
+                        d += 1
+                        if is_call_to(t, "copy.deepcopy", "copy.copy") and \
+                                len(t.args[1]) == 1:
+                            t = t.args[1][0]
+                        elif t.op in ("mut", "upd"):
+                            t = t.args[0]
+                        elif t.op in ("loopout", "loopvar"):
+                            t = t.args[2]
+                        elif t.op == "call" and t.args[0].op == "attr" and \
+                                t.args[0].args[0].op != "global":
+                            t = t.args[0].args[0]      # method result
+                        else:
+                            break
+                    return t
+                roots_ = {obj(a) for a in tm.strip_ite(val)}
+                if roots_ == {tm.param(pname)}:
+                    ok = True
+                elif tm.param(other) not in roots_:
+                    ctx.undecidable("C05.2", fa, f"[{cfgname}] returned "
+                                    f"trajectory {k + 1}: origin of "
+                                    f"{fmt(val)[:80]} not recognised")
+                    continue
             ctx.ob("C05.2", fa, ok,
                    f"[{cfgname}] returned trajectory {k + 1} derives from "
                    f"{pname}" if ok else
